@@ -44,10 +44,25 @@ var fuzzSeeds = []string{
 	"cpu value=1 1\\\ncpu value=2 2",
 	"cpu,time=1 value=1\ncpu,_field=1 value=1\ncpu,_measurement=1 value=1",
 	"cpu \t=1\ncpu \x00=1",
+	`cpu a\\="b="`,
+	`0 0=""\,"="`,
+	`0 0=""\,"=,=0"`,
+	`0 0=""="","="`,
 	"\\\\\\\\,,,,====    \"\"\"\"\n\n\n####",
 	strings.Repeat("\\", 64) + strings.Repeat(",", 8) + strings.Repeat("=", 8) + " " + strings.Repeat("\"", 7),
 	"\xff\xff\xff\xff \xff=\xff \xff",
 	"m," + strings.Repeat("k", 300) + "=" + strings.Repeat("v", 300) + " f=1",
+}
+
+// safeFields reads the fields; a panic (known finding accepted-point-fields-unreadable, judged by
+// checkPoint) is turned into an error so that both parsers can still be compared.
+func safeFields(p models.Point) (fs models.Fields, err error) {
+	defer func() {
+		if r := recover(); r != nil {
+			fs, err = nil, fmt.Errorf("panic: %v", r)
+		}
+	}()
+	return p.Fields()
 }
 
 func precisionOf(b uint8) string { return lpgen.Precisions[int(b)%len(lpgen.Precisions)] }
@@ -66,7 +81,7 @@ func FuzzParsePoints(f *testing.F) {
 		rec.Eval()
 		rec.Class("FuzzParsePoints:executions")
 		if o.points > 0 || o.named > 0 {
-			rec.NonTrivial("FuzzParsePoints|" + prec + "|" + string(data))
+			nonTrivial("FuzzParsePoints|" + prec + "|" + string(data))
 		}
 		if o.key != "" {
 			rec.Fail(t, "FuzzParsePoints", o.key, o.det, map[string]any{"precision": prec, "input": clip(string(data)), "input_hex": clip(fmt.Sprintf("%x", data))})
@@ -88,7 +103,7 @@ func FuzzPointsParser(f *testing.F) {
 		fail := func(key, detail string) { rec.Fail(t, "FuzzPointsParser", key, clip(detail), c) }
 		defer func() {
 			if r := recover(); r != nil {
-				fail("panic", fmt.Sprintf("http/points.Parser.Parse panicked: %v", r))
+				fail("parser-panics", fmt.Sprintf("http/points.Parser.Parse (or reading its result) panicked: %v", r))
 			}
 		}()
 		rec.Eval()
@@ -127,7 +142,7 @@ func FuzzPointsParser(f *testing.F) {
 		res, perr := points.NewParser(prec).Parse(context.Background(), platform.ID(1), platform.ID(2), rc)
 		dpts, derr := models.ParsePointsWithPrecision(append([]byte(nil), data...), fixedDefault, prec)
 		if len(dpts) > 0 || derr != nil {
-			rec.NonTrivial("FuzzPointsParser|" + prec + "|" + string(data))
+			nonTrivial("FuzzPointsParser|" + prec + "|" + string(data))
 		}
 		if derr != nil {
 			if perr == nil {
@@ -160,8 +175,8 @@ func FuzzPointsParser(f *testing.F) {
 			if !bytes.Equal(p.Key(), dpts[i].Key()) {
 				fail("parser-point-differs", fmt.Sprintf("point %d: key %q vs %q", i, p.Key(), dpts[i].Key()))
 			}
-			f1, e1 := p.Fields()
-			f2, e2 := dpts[i].Fields()
+			f1, e1 := safeFields(p)
+			f2, e2 := safeFields(dpts[i])
 			if (e1 == nil) != (e2 == nil) || !reflect.DeepEqual(f1, f2) {
 				fail("parser-point-differs", fmt.Sprintf("point %d: fields %v (%v) vs %v (%v)", i, f1, e1, f2, e2))
 			}
